@@ -47,8 +47,9 @@ BOUNDS = {
 RULE = ("One case = one pool configuration and one (or, for the delayed-feeder schedule, two) fully consumed "
         "call(s), run in a fresh process. Checked: the yielded values against the reference, no result chunk "
         "left on the results queue after the call (tokens without payload ignored), nothing left on the work "
-        "queue, the context is left and no worker is alive afterwards. A hang is a failure with observed "
-        "'timeout'. Trivial: empty input.")
+        "queue. A hang of a call is a failure with observed 'timeout'; whether the pool context can be left "
+        "afterwards is judged by C02/C04, not here (a hang there is only noted in 'observed'). Trivial: empty "
+        "input.")
 
 
 def _cfg(pool, workers, wq, rq, quota=None):
@@ -113,4 +114,4 @@ def cases(tier, seed):
 
 
 def run_case(case):
-    return PU.guarded(lambda: PU.pool_history_body(case, "imap"), BODY_TIMEOUT_S, "imap/" + case.get("kind", "?"))
+    return PU.guarded(lambda: PU.pool_history_body(case, "imap", judge_exit=False), BODY_TIMEOUT_S, "imap/" + case.get("kind", "?"))
